@@ -486,7 +486,7 @@ func genApi(r *lib.Rand, depth int) ApiIn {
 type CallIn struct {
 	Kind     string `json:"kind"`   // "call"
 	Via      string `json:"via"`    // callbyparam | call | pcall | gpcall
-	Callee   string `json:"callee"` // go | lua | luavararg | nonfunction | callable-table
+	Callee   string `json:"callee"` // go | lua | luavararg | nonfunction | callable-table | callable-userdata
 	Depth    int    `json:"depth"`
 	Locals   []int  `json:"locals"`
 	Init     []int  `json:"init"`
@@ -555,6 +555,7 @@ func runCall(w *lib.Writer, in CallIn, class string) {
 	e := newCellEnc()
 	results := producedVals(in)
 	var fn lua.LValue
+	var callLog []string // what a __call handler saw
 	gfn := func(L *lua.LState) int {
 		for i := 0; i < in.Junk; i++ {
 			L.Push(lua.LNumber(800 + i))
@@ -574,15 +575,37 @@ func runCall(w *lib.Writer, in CallIn, class string) {
 		fn = luaCallee(L, in)
 	case "nonfunction":
 		fn = lua.LNumber(1)
-	case "callable-table":
-		t := L.NewTable()
+	case "callable-table", "callable-userdata":
+		// the __call handler observes what it is given: its first argument must be the called
+		// object itself, the others the call's arguments
+		var obj lua.LValue
 		mt := L.NewTable()
 		mt.RawSetString("__call", L.NewFunction(func(L *lua.LState) int {
+			self := L.Get(1)
+			switch {
+			case self == obj:
+				callLog = append(callLog, "self:object")
+			default:
+				callLog = append(callLog, "self:other:"+self.Type().String())
+			}
+			callLog = append(callLog, fmt.Sprintf("nargs:%d", L.GetTop()-1))
+			for i := 2; i <= L.GetTop(); i++ {
+				callLog = append(callLog, "arg:"+L.Get(i).String())
+			}
 			L.Remove(1) // self
 			return gfn(L)
 		}))
-		L.SetMetatable(t, mt)
-		fn = t
+		if in.Callee == "callable-table" {
+			t := L.NewTable()
+			L.SetMetatable(t, mt)
+			obj = t
+		} else {
+			ud := L.NewUserData()
+			ud.Value = 1
+			L.SetMetatable(ud, mt)
+			obj = ud
+		}
+		fn = obj
 	}
 	args := make([]lua.LValue, in.NArgs)
 	argCells := make([]string, in.NArgs)
@@ -653,6 +676,34 @@ func runCall(w *lib.Writer, in CallIn, class string) {
 	if observed && strings.Join(pre, ";") != strings.Join(preAfter, ";") {
 		w.GoFail(id, "the call disturbed registry cells of the callers")
 	}
+	if strings.HasPrefix(in.Callee, "callable-") && in.Via != "gpcall" {
+		// the same call written as the Lua expression OBJ(a, b, ...): the handler must see the same
+		apiLog := callLog
+		callLog = nil
+		L.SetGlobal("OBJ", fn)
+		as := make([]string, in.NArgs)
+		for i := range as {
+			as[i] = fmt.Sprint(300 + i)
+		}
+		luaErr := L.DoString("return OBJ(" + strings.Join(as, ", ") + ")") != nil
+		L.SetTop(0)
+		luaLog := callLog
+		if luaErr {
+			luaLog = append(luaLog, "error")
+		}
+		if gotErr {
+			apiLog = append(apiLog, "error")
+		}
+		toZ := func(ss []string) string {
+			zs := make([]int64, len(ss))
+			for i, x := range ss {
+				zs[i] = hashZ(x)
+			}
+			return lib.CoqZList(zs)
+		}
+		w.Add(lib.Case{Input: in, Observed: map[string]any{"api": apiLog, "lua": luaLog}, Class: "callmeta/" + in.Via + "/" + in.Callee,
+			Nontrivial: in.NArgs > 0, Coq: fmt.Sprintf("CObj 99 %s %s", toZ(apiLog), toZ(luaLog))})
+	}
 	if !ok {
 		w.GoFail(id, "a caller found its locals changed after the call")
 	}
@@ -680,7 +731,7 @@ func genCall(r *lib.Rand, depth int) CallIn {
 	reg := genRegOpt(r)
 	in := CallIn{Kind: "call", Depth: depth, Reg: reg, Locals: genLocals(r, reg)}
 	in.Via = []string{"callbyparam", "callbyparam", "callbyparam", "call", "pcall", "gpcall"}[r.Intn(6)]
-	in.Callee = []string{"go", "go", "lua", "lua", "luavararg", "nonfunction", "callable-table"}[r.Intn(7)]
+	in.Callee = []string{"go", "go", "lua", "lua", "luavararg", "nonfunction", "callable-table", "callable-table", "callable-userdata"}[r.Intn(9)]
 	in.NArgs = r.Intn(5)
 	in.Junk = r.Intn(4)
 	in.Produced = r.Intn(5)
